@@ -237,16 +237,4 @@ theorem reports_spec_decoded (b : Int) (g o : Nat) (a : List CheckResult) :
 theorem defaultBatch_ge_one (b : Int) : 1 ≤ defaultBatch b := by
   unfold defaultBatch; split <;> omega
 
-/-! ### tie to the source: decision expressions regenerated by the extractor (`Gen.Src`) -/
-
-/-- the model's flush condition IS the condition of the `if` in `Reports`, as translated from the working tree -/
-theorem flush_matches_source (cfg : Cfg) (cur : List CheckResult) (gas : Nat) (r : CheckResult) :
-    flush cfg cur gas r =
-      Gen.Src.reportsFlush cur.length cfg.batch gas r.gas cfg.overhead cfg.gasLimit ((cur.map (·.upkeepID)).contains r.upkeepID) := rfl
-
-/-- the batch-size default of the model is taken under the condition `ensureMinimumDefaults` tests -/
-theorem ensureDefaults_matches_source (b : Int) (g o : Nat) :
-    (ensureDefaults b g o).batch = if Gen.Src.batchNeedsDefault b then 1 else b.toNat := by
-  simp [ensureDefaults, Gen.Src.batchNeedsDefault]
-
 end AutoVerif.C04
